@@ -7,6 +7,8 @@
 
 From Servitor Require Import Base Jtp.
 From Servitor.Facts Require Import JtpFacts FaultFacts.
+From Servitor Require Import Collection.
+From Servitor.Facts Require Import CollectionFacts.
 
 (* cut a valid response at any byte: the result is an error, never a document *)
 Theorem prefix_error :
@@ -85,3 +87,21 @@ Theorem fetch_time :
   end) * (2 * T) <= (b + 1) * (2 * T).
 Proof. exact fetch_time_fact. Qed.
 Print Assumptions fetch_time.
+
+(* a page of a collection that fails to load ENDS the listing - the failure item is the last thing delivered and no continuation is handed out (nothing can be asked of a page that does not exist) *)
+Theorem harvest_fail_ends :
+  forall (E R : Type) (load : R -> option (page E R)) (fuel : nat) 
+  (p : page E R) (amount start empties : nat) (d : list (delivered E R))
+  (k : option (page E R * nat)) (r : R),
+  harvest load fuel p amount start empties = (d, k) ->
+  In (DLoadFail r) d ->
+  k = None /\ (exists d0 : list (delivered E R), d = d0 ++ [DLoadFail r]).
+Proof. exact harvest_fail_ends_fact. Qed.
+Print Assumptions harvest_fail_ends.
+
+(* every request after the end delivers nothing *)
+Theorem requests_after_end :
+  forall (E R : Type) (load : R -> option (page E R)) (amounts : list nat),
+  requests load None amounts = ([], None).
+Proof. exact requests_after_end_fact. Qed.
+Print Assumptions requests_after_end.
